@@ -77,9 +77,17 @@ async fn run_case(case: Vec<String>) -> String {
         _ => via_values.iter().for_each(|v| via_lines.push_str(&format!("Via: {}\r\n", v))),
     }
     let ts: String = timestamps.iter().map(|t| format!("Timestamp: {}\r\n", t)).collect();
+    // field 11: how From / To are written in the request - name-addr (default) or the bare addr-spec form (RFC 3261 20.10: without
+    // angle brackets every parameter belongs to the header, not to the URI)
+    let (from_v, to_v) = match case.get(11).map(|s| s.as_str()) {
+        Some("1") => ("sip:a@example.org;tag=ft;x=1", "<sip:b@example.org>"),
+        Some("2") => ("sip:a@example.org;tag=ft;x=1", "sip:b@example.org"),
+        Some("3") => ("<sip:a@example.org>;tag=ft;x=1", "sip:b@example.org"),
+        _ => ("<sip:a@example.org>;tag=ft;x=1", "<sip:b@example.org>"),
+    };
     let text = format!(
-        "OPTIONS sip:me@10.0.0.1 SIP/2.0\r\n{via}From: <sip:a@example.org>;tag=ft;x=1\r\nTo: <sip:b@example.org>\r\nCall-ID: c09-call@host\r\nCSeq: 4242 OPTIONS\r\n{ts}Max-Forwards: 70\r\nUser-Agent: t\r\nContent-Length: 0\r\n\r\n",
-        via = via_lines, ts = ts
+        "OPTIONS sip:me@10.0.0.1 SIP/2.0\r\n{via}From: {from}\r\nTo: {to}\r\nCall-ID: c09-call@host\r\nCSeq: 4242 OPTIONS\r\n{ts}Max-Forwards: 70\r\nUser-Agent: t\r\nContent-Length: 0\r\n\r\n",
+        via = via_lines, from = from_v, to = to_v, ts = ts
     );
     if !inject(&endpoint, text.as_bytes(), source, &tp) {
         return "PARSE-FAIL".into();
